@@ -14,7 +14,7 @@ func (r *rng) rootOperand(p int, cube bool) *apd.Decimal {
 	}
 	var c *big.Int
 	e := r.rangeI(-12, 12)
-	switch r.intn(9) {
+	switch r.intn(10) {
 	case 0: // perfect power of a p-digit (or shorter) root
 		k := r.coeffShape(r.rangeI(1, p))
 		c = new(big.Int).Exp(k, big.NewInt(int64(deg)), nil)
@@ -33,11 +33,18 @@ func (r *rng) rootOperand(p int, cube bool) *apd.Decimal {
 			c.Add(c, big.NewInt(int64(r.rangeI(-3, 3))))
 		}
 	case 3: // all nines / one plus epsilon
-		n := r.rangeI(1, 3*p+4)
+		n := r.rangeI(1, 4*p+24)
 		c = new(big.Int).Sub(pow10(n), big.NewInt(1))
 		if r.coin(50) {
 			c = new(big.Int).Add(pow10(n), big.NewInt(1))
 		}
+	case 7: // a perfect power followed by a long run of zeros and a last unit (or minus one): the root is within
+		// 10^-(2p+..) of a short number, far closer than any fixed number of guard digits resolves
+		k := r.coeffShape(r.rangeI(1, p))
+		c = new(big.Int).Exp(k, big.NewInt(int64(deg)), nil)
+		c.Mul(c, pow10(deg*r.rangeI(p/2+2, 2*p+12)))
+		c.Add(c, big.NewInt(int64(r.pick([]int{-1, 1, 1, 2}))))
+		e = -r.rangeI(0, 40)
 	case 4: // many more digits than the precision
 		c = r.coeffShape(r.rangeI(p+1, 4*p+10))
 	case 5:
@@ -66,6 +73,20 @@ func init() {
 				op = "Cbrt"
 			}
 			c := &arithCase{Op: op, Ctx: ctx, X: r.rootOperand(p, op == "Cbrt"), Y: nil, Alias: "n", DPre: new(apd.Decimal)}
+			if r.coin(15) {
+				// move the root to the edges of the context's range (overflow, Emin, Etiny) by a multiple of
+				// the degree, which keeps perfect powers perfect
+				deg := 2
+				if op == "Cbrt" {
+					deg = 3
+				}
+				nd := len(c.X.Coeff.String())
+				rootAdj := (int(c.X.Exponent) + nd - 1) / deg
+				etiny := int(ctx.MinExponent) - p + 1
+				target := r.pick([]int{int(ctx.MaxExponent) - 1, int(ctx.MaxExponent), int(ctx.MaxExponent) + 1, int(ctx.MaxExponent) + 40,
+					int(ctx.MinExponent) + 1, int(ctx.MinExponent), int(ctx.MinExponent) - 1, int(ctx.MinExponent) - p/2, etiny + 1, etiny, etiny - 1, etiny - 40})
+				c.X.Exponent += int32(deg * (target - rootAdj))
+			}
 			if r.coin(8) {
 				c.X = r.genSpecial()
 			}
